@@ -152,7 +152,9 @@ def run_case(case, policy=None):
 
         def make_update(modulename, pobj):
             s.switch('build')
-            s.annotate(p=list(where.get((modulename, pobj.export), (-1, -1))))
+            pp = list(where.get((modulename, pobj.export), (-1, -1)))
+            s.annotate(p=pp)
+            events.append(['build', s.current_thread().name] + pp)
             return orig_make_update(modulename, pobj)
         D.make_update = make_update
 
@@ -204,7 +206,7 @@ def run_case(case, policy=None):
                 else:
                     err = data[2][0] if data[0].startswith('error_') else None
                     item = ['reply', data[0], data[1], err]
-                events.append(['send', self.idx] + item)
+                events.append(['send', self.idx, s.current_thread().name] + item)
                 s.annotate(to=self.idx, msg=item)
 
         conns = [None] * len(case['conns'])
@@ -244,3 +246,558 @@ def run_case(case, policy=None):
     finally:
         D.make_update = orig_make_update
         SN.get_version = orig_version
+
+
+# ------------------------------------------------------------------ encoding into Gallina
+ERRCODE = {'ProtocolError': 0, 'NoSuchModule': 1, 'NoSuchParameter': 2}
+
+
+def enc_scope(sc):
+    k = sc[0]
+    if k == 'g':
+        return 'SG'
+    if k == 'm':
+        return f'(SM {gal.nat(sc[1])})'
+    if k == 'p':
+        return f'(SP {gal.nat(sc[1])} {gal.nat(sc[2])})'
+    if k == 'badmod':
+        return '(SM 99%nat)'
+    if k == 'badmodpar':
+        return '(SP 99%nat 0%nat)'
+    if k == 'badpar':
+        return f'(SP {gal.nat(sc[1])} 99%nat)'
+    raise ValueError(sc)
+
+
+def enc_req(r):
+    if r[0] == 'idn':
+        return 'RIdn'
+    if r[0] == 'close':
+        return 'RClose'
+    data = gal.boolean(len(r) > 2 and bool(r[2]))
+    return f"({'RAct' if r[0] == 'act' else 'RDeact'} {enc_scope(r[1])} {data})"
+
+
+def enc_pid(mi, pi):
+    return f'({gal.nat(mi)}, {gal.nat(pi)})'
+
+
+def all_scopes(case):
+    """scope descriptors with their specifier strings"""
+    out = [['g'], ['badmod'], ['badmodpar']]
+    for mi, md in enumerate(case['node']):
+        out.append(['m', mi])
+        out.append(['badpar', mi])
+        for pi in range(len(md['params'])):
+            out.append(['p', mi, pi])
+    return out
+
+
+def scope_of_spec(case, spec):
+    for sc in all_scopes(case):
+        if spec_of(case, sc) == spec:
+            return sc
+    raise ValueError(f'specifier outside the model: {spec!r}')
+
+
+def enc_reply(case, action, spec, err):
+    if action == 'active':
+        return f'(RpActive {enc_scope(scope_of_spec(case, spec))})'
+    if action == 'inactive':
+        return 'RpInactive'
+    if action.startswith('ISSE'):
+        return 'RpIdent'
+    if action.startswith('error_') and err in ERRCODE:
+        return f'(RpErr {gal.nat(ERRCODE[err])})'
+    raise ValueError(f'reply outside the model: {action} {spec} {err}')
+
+
+def conn_logs(case, obs):
+    """per connection: the entries of its log in order (requests received, messages handed to it, close)"""
+    logs = [[] for _ in case['conns']]
+    for ev in obs['events']:
+        if ev[0] == 'req':
+            logs[ev[1]].append(['req', ev[2]])
+        elif ev[0] == 'close':
+            logs[ev[1]].append(['close'])
+        elif ev[0] == 'send':
+            logs[ev[1]].append(ev[3:])
+    return logs
+
+
+def enc_entry(case, e):
+    if e[0] == 'req':
+        return f'(EReq {enc_req(e[1])})'
+    if e[0] == 'close':
+        return 'EClose'
+    if e[0] == 'upd':
+        if e[1] < 0 or e[3] < 0:
+            raise ValueError(f'update outside the model: {e}')
+        return f'(EUpd {enc_pid(e[1], e[2])} {gal.nat(e[3])})'
+    return f'(ERep {enc_reply(case, e[1], e[2], e[3])})'
+
+
+def enc_tid(name):
+    return f"({'TC' if name[0] == 'c' else 'TU'} {gal.nat(int(name[1:]))})"
+
+
+def enc_lab(lab, info):
+    if lab == 'start':
+        return 'LStart'
+    if lab == 'recv':
+        return 'LRecv'
+    if lab == 'acquire:disp':
+        return 'LAcqD'
+    if lab.startswith('acquire:upd'):
+        return f'(LAcqU {gal.nat(int(lab[11:]))})'
+    if lab == 'build':
+        return f"(LBuild {enc_pid(*info['p'])})"
+    if lab == 'send':
+        return f"(LSend {gal.nat(info['to'])})"
+    raise ValueError(f'label outside the model: {lab}')
+
+
+def encode(case, obs):
+    if obs['status'] != 'ok' or obs['main_error'] or obs['thread_errors']:
+        raise ValueError(f"run did not complete: {obs['status']} {obs['main_error']} {obs['thread_errors']}")
+    node = case['node']
+    natural = [[mi, list(range(len(md['params'])))] for mi, md in enumerate(node) if md['export']]
+    if obs['order'] != natural:
+        raise ValueError(f"snapshot order of the node is not the declared one: {obs['order']}")
+    nd = gal.lst(node, lambda md: f"({gal.boolean(md['export'])}, {gal.lst(md['params'], lambda p: gal.boolean(p[1]))})")
+    conns = gal.lst(case['conns'], lambda sc: gal.lst(sc, enc_req))
+    upds = gal.lst(case['upds'], lambda us: gal.lst(us, lambda u: f'({enc_pid(u[0], u[1])}, {gal.nat(u[2])})'))
+    trace = '; '.join(f'({enc_tid(t)}, {enc_lab(lab, info)})' for t, lab, info in obs['trace'])
+    logs = gal.lst(conn_logs(case, obs), lambda l: gal.lst(l, lambda e: enc_entry(case, e)))
+    fin = obs['final']
+    cache = '; '.join(f'({enc_pid(mi, pi)}, {gal.nat(v)})' for mi, row in enumerate(fin['cache']) for pi, v in enumerate(row))
+    subs = '; '.join(f'({gal.nat(c)}, {enc_scope(scope_of_spec(case, k))})' for k, cs in fin['subs'] for c in cs)
+    return ('{| k_node := %s; k_conns := %s; k_upds := %s; k_trace := [%s]; k_logs := %s; k_cache := [%s]; '
+            'k_actv := %s; k_subs := [%s] |}' % (nd, conns, upds, trace, logs, cache, gal.lst(fin['active'], gal.nat), subs))
+
+
+def model_result_term(case, obs):
+    return f'model_result ({encode(case, obs)})'
+
+
+# ------------------------------------------------------------------ direct oracle: the property on the observation
+def _covers(sc, mi, pi):
+    return sc[0] == 'g' or (sc[0] == 'm' and sc[1] == mi) or (sc[0] == 'p' and sc[1] == mi and sc[2] == pi)
+
+
+def _exported(case, mi, pi):
+    md = case['node'][mi]
+    return bool(md['export'] and md['params'][pi][1])
+
+
+def _valid_scope(case, sc):
+    if sc[0] == 'g':
+        return True
+    if sc[0] == 'm':
+        return bool(case['node'][sc[1]]['export'])
+    if sc[0] == 'p':
+        return _exported(case, sc[1], sc[2])
+    return False
+
+
+def _encloses(outer, inner):
+    """a deactivate of `outer` may also end a subscription of `inner` (not the matching deactivate)"""
+    return outer[0] == 'g' or (outer[0] == 'm' and inner[0] == 'p' and inner[1] == outer[1])
+
+
+def subscriptions(case, obs):
+    """per connection the subscription instances read off its own request / reply history:
+    {sc, req (index of the activate request), active (index of the 'active' reply or None),
+     maybe_end (index of the first later request that may end it: matching or enclosing deactivate, *IDN?, close; or None),
+     dead (index from which it is certainly ended: reply to the MATCHING deactivate / to *IDN? / connection removed; or None)}"""
+    ev = obs['events']
+    res = [[] for _ in case['conns']]
+    cur = [None] * len(case['conns'])       # request being processed: (index, req)
+    for i, e in enumerate(ev):
+        if e[0] == 'req':
+            c, r = e[1], e[2]
+            cur[c] = (i, r)
+            if r[0] == 'act' and not (len(r) > 2 and r[2]) and _valid_scope(case, r[1]):
+                res[c].append({'sc': r[1], 'req': i, 'active': None, 'maybe_end': None, 'dead': None})
+            elif r[0] in ('deact', 'idn'):
+                for sub in res[c]:
+                    if sub['req'] < i and sub['maybe_end'] is None and (
+                            r[0] == 'idn' or (not (len(r) > 2 and r[2]) and (r[1] == sub['sc'] or _encloses(r[1], sub['sc'])))):
+                        sub['maybe_end'] = i
+        elif e[0] == 'close':
+            for sub in res[e[1]]:
+                if sub['maybe_end'] is None:
+                    sub['maybe_end'] = i
+        elif e[0] == 'closed':
+            for sub in res[e[1]]:
+                if sub['dead'] is None:
+                    sub['dead'] = i
+        elif e[0] == 'send' and e[3] == 'reply' and cur[e[1]] is not None:
+            c = e[1]
+            ri, r = cur[c]
+            cur[c] = None
+            if e[4] == 'active':
+                for sub in res[c]:
+                    if sub['req'] == ri:
+                        sub['active'] = i
+            elif e[4] == 'inactive' and r[0] == 'deact':
+                for sub in res[c]:
+                    if sub['req'] < ri and sub['dead'] is None and r[1] == sub['sc']:
+                        sub['dead'] = i
+            elif r[0] == 'idn' and not e[4].startswith('error_'):
+                for sub in res[c]:
+                    if sub['req'] < ri and sub['dead'] is None:
+                        sub['dead'] = i
+    return res
+
+
+def oracle(case, obs):
+    fails = []
+
+    def fail(cls, what, **kw):
+        fails.append(dict({'class': cls, 'what': what}, **kw))
+
+    if obs['status'] != 'ok' or obs['main_error'] or obs['thread_errors']:
+        fail('run-' + obs['status'], f"the run did not complete: {obs['status']} {obs['main_error']} "
+             f"{obs['thread_errors']} blocked: {obs['blocked_at_end']}")
+        return fails
+    ev = obs['events']
+    node = case['node']
+    nconn = len(case['conns'])
+    subsc = subscriptions(case, obs)
+    # history of the cache: stores[(mi, pi)] = [(index, value)], initial value 0 at index -1
+    stores = {}
+    for mi, md in enumerate(node):
+        for pi in range(len(md['params'])):
+            stores[(mi, pi)] = [(-1, 0)]
+    for i, e in enumerate(ev):
+        if e[0] == 'store':
+            stores[(e[1], e[2])].append((i, e[3]))
+
+    def values_between(p, t0, t1):
+        """values the cache of p held at some moment of [t0, t1]"""
+        vals = [v for i, v in stores[p] if t0 <= i <= t1]
+        before = [v for i, v in stores[p] if i < t0]
+        return set(vals + before[-1:])
+
+    # requests and their replies
+    pend = [None] * nconn
+    for i, e in enumerate(ev):
+        if e[0] == 'req':
+            pend[e[1]] = (i, e[2])
+        elif e[0] == 'send' and e[3] == 'reply' and pend[e[1]] is not None:
+            ri, r = pend[e[1]]
+            pend[e[1]] = None
+            c = e[1]
+            if r[0] == 'act' and not (len(r) > 2 and r[2]) and _valid_scope(case, r[1]):
+                # 1. an activate request delivers, before its 'active' reply, one current update for every exported
+                #    parameter in that scope
+                if e[4] != 'active' or e[5] != spec_of(case, r[1]):
+                    fail('activate-refused', f'conn {c}: activate {spec_of(case, r[1])} answered with {e[4:]}')
+                    continue
+                window = [(k, x) for k, x in enumerate(ev[ri:i], ri) if x[0] == 'send' and x[1] == c and x[3] == 'upd']
+                for mi, md in enumerate(node):
+                    for pi in range(len(md['params'])):
+                        if _exported(case, mi, pi) and _covers(r[1], mi, pi):
+                            got = [(k, x) for k, x in window if x[4] == mi and x[5] == pi]
+                            if not got:
+                                fail('snapshot-incomplete', f'conn {c}: activate {spec_of(case, r[1])} replied active '
+                                     f'without an update of parameter {(mi, pi)}', conn=c, p=[mi, pi])
+                            elif not any(x[6] in values_between((mi, pi), ri, k) for k, x in got):
+                                fail('snapshot-not-current', f'conn {c}: activate {spec_of(case, r[1])}: the updates of '
+                                     f'{(mi, pi)} before the reply carry {[x[6] for _, x in got]}, never the value of the '
+                                     f'cache during the activation', conn=c, p=[mi, pi])
+    # every delivered update carries a value the cache held before, for an exported parameter
+    for i, e in enumerate(ev):
+        if e[0] == 'send' and e[3] == 'upd':
+            p = (e[4], e[5])
+            if p not in stores or not _exported(case, *p):
+                fail('update-of-hidden-parameter', f'conn {e[1]} received an update for {p}', conn=e[1], p=list(p))
+            elif e[6] not in values_between(p, -1, i):
+                fail('invented-update', f'conn {e[1]} received {p} = {e[6]}, a value never stored', conn=e[1], p=list(p))
+
+    # 2. from then on the connection receives every later update in scope
+    anns = {}
+    for i, e in enumerate(ev):
+        if e[0] == 'ann':
+            anns[(e[2], e[3], e[4])] = [i, None]
+        elif e[0] == 'ann_end':
+            anns[(e[2], e[3], e[4])][1] = i
+    for c in range(nconn):
+        got = {(e[4], e[5], e[6]) for e in ev if e[0] == 'send' and e[1] == c and e[3] == 'upd'}
+        for sub in subsc[c]:
+            if sub['active'] is None:
+                continue
+            for (mi, pi, v), (a0, a1) in anns.items():
+                if (_exported(case, mi, pi) and _covers(sub['sc'], mi, pi) and a0 > sub['active'] and a1 is not None
+                        and (sub['maybe_end'] is None or a1 < sub['maybe_end']) and (mi, pi, v) not in got):
+                    fail('update-missed', f'conn {c}: scope {spec_of(case, sub["sc"])} active since event {sub["active"]}, '
+                         f'update {(mi, pi)} = {v} announced at {a0}..{a1} was never delivered', conn=c, p=[mi, pi])
+
+    # 3. once things are quiet the last message held for a parameter equals the cache
+    final_cache = obs['final']['cache']
+    for c in range(nconn):
+        for mi, md in enumerate(node):
+            for pi in range(len(md['params'])):
+                if not _exported(case, mi, pi):
+                    continue
+                live = [sub for sub in subsc[c] if sub['active'] is not None and sub['maybe_end'] is None
+                        and _covers(sub['sc'], mi, pi)]
+                if not live:
+                    continue
+                msgs = [(i, e) for i, e in enumerate(ev) if e[0] == 'send' and e[1] == c and e[3] == 'upd'
+                        and e[4] == mi and e[5] == pi]
+                if not msgs:
+                    continue      # reported as snapshot-incomplete
+                i, last = msgs[-1]
+                if last[6] != final_cache[mi][pi]:
+                    newer = [e[6] for _, e in msgs[:-1] if e[6] == final_cache[mi][pi]]
+                    fail('stale-at-quiescence', f'conn {c} (scope {spec_of(case, live[0]["sc"])} active): the last message '
+                         f'for {(mi, pi)} carries {last[6]} (sent by {last[2]}), the cache holds {final_cache[mi][pi]}',
+                         conn=c, p=[mi, pi], sender=last[2], overtaken=bool(newer), at=i)
+
+    # 4. after the matching deactivate, an identification request or a disconnect no further update of that scope
+    for i, e in enumerate(ev):
+        if e[0] == 'send' and e[3] == 'upd':
+            c, mi, pi = e[1], e[4], e[5]
+            cover = [sub for sub in subsc[c] if sub['req'] < i and _covers(sub['sc'], mi, pi)]
+            if not cover:
+                fail('unsolicited-update', f'conn {c} received an update of {(mi, pi)} (event {i}) without any activate '
+                     f'request covering it', conn=c, p=[mi, pi], sender=e[2], at=i)
+            elif all(sub['dead'] is not None and sub['dead'] < i for sub in cover):
+                dead = max(sub['dead'] for sub in cover)
+                fail('update-after-deactivate', f'conn {c} received {(mi, pi)} = {e[6]} from {e[2]} (event {i}) after its '
+                     f'scope was ended at event {dead} ({ev[dead][:5]})', conn=c, p=[mi, pi], sender=e[2], at=i, dead=dead)
+    return fails
+
+
+def _last_build_before(obs, thread, p, at):
+    idx = [i for i, e in enumerate(obs['events'][:at]) if e[0] == 'build' and e[1] == thread and e[2:4] == list(p)]
+    return idx[-1] if idx else None
+
+
+FINDING_CLASSIFIERS = {
+    # handle_activate builds the snapshot message of p, a driver thread stores and broadcasts a newer value to the
+    # (already registered) connection, then the activation sends its older message last
+    'stale_snapshot': lambda case, obs, f: f['class'] == 'stale-at-quiescence' and f['sender'] == f"c{f['conn']}"
+    and f['overtaken'],
+    # broadcast_event selected its listeners before the connection was unregistered and sends afterwards
+    'late_update': lambda case, obs, f: f['class'] == 'update-after-deactivate' and f['sender'].startswith('u')
+    and _last_build_before(obs, f['sender'], f['p'], f['at']) is not None
+    and _last_build_before(obs, f['sender'], f['p'], f['at']) < f['dead'],
+}
+
+
+def nontrivial_key(case, obs):
+    if obs['status'] != 'ok' or not any(e[0] == 'send' and e[3] == 'upd' for e in obs['events']):
+        return None
+    return repr((case['node'], case['conns'], case['upds'], [(t, l) for t, l, _ in obs['trace']]))
+
+
+def outcome_labels(case, obs):
+    labs = set()
+    if obs['status'] != 'ok':
+        return ['status:' + obs['status']]
+    for e in obs['events']:
+        if e[0] == 'send' and e[3] == 'reply':
+            labs.add('reply:' + ('ident' if e[4].startswith('ISSE') else e[4] + (':' + e[6] if e[6] else '')))
+        elif e[0] == 'send':
+            labs.add('update-from-' + ('snapshot' if e[2][0] == 'c' else 'broadcast'))
+        elif e[0] == 'closed':
+            labs.add('closed')
+    for f in oracle(case, obs):
+        labs.add('oracle:' + f['class'])
+    return sorted(labs)
+
+
+def sample_repr(case, obs):
+    return {'case': {k: v for k, v in case.items() if k != 'sched'}, 'sched_kind': case['sched']['kind'],
+            'steps': [f'{t}:{lab}' for t, lab, _ in obs['trace']][:80],
+            'logs': conn_logs(case, obs), 'final': obs['final']}
+
+
+def extra_evidence(cases, obs):
+    ok = [o for o in obs if '__harness_error__' not in o]
+    kinds = {}
+    for c in cases:
+        kinds[c['sched']['kind']] = kinds.get(c['sched']['kind'], 0) + 1
+    return {'schedule_steps_total': sum(len(o['trace']) for o in ok),
+            'max_steps_in_a_run': max((len(o['trace']) for o in ok), default=0),
+            'schedule_kinds': kinds}
+
+
+# ------------------------------------------------------------------ generators
+def rand_node(rng):
+    nmod = rng.choice([1, 1, 2, 2, 3])
+    node = []
+    names = ['value', 'a', 'b']
+    for mi in range(nmod):
+        npar = rng.choice([1, 2, 2, 3])
+        params = [[names[pi], rng.random() < 0.8] for pi in range(npar)]
+        node.append({'export': rng.random() < 0.9, 'params': params})
+    if not any(md['export'] and any(f for _, f in md['params']) for md in node):
+        node[0]['export'] = True
+        node[0]['params'][0][1] = True
+    return node
+
+
+def rand_scope(rng, node, bad=0.1):
+    r = rng.random()
+    if r < bad:
+        return rng.choice([['badmod'], ['badmodpar'], ['badpar', rng.randrange(len(node))]])
+    r = rng.random()
+    if r < 0.35:
+        return ['g']
+    mi = rng.randrange(len(node))
+    if r < 0.65:
+        return ['m', mi]
+    return ['p', mi, rng.randrange(len(node[mi]['params']))]
+
+
+def rand_script(rng, node):
+    script = []
+    opened = []
+    for _ in range(rng.choice([1, 2, 2, 3, 3, 4])):
+        r = rng.random()
+        if r < 0.5 or not opened and r < 0.8:
+            sc = rand_scope(rng, node)
+            req = ['act', sc]
+            if rng.random() < 0.05:
+                req.append(1)
+            else:
+                opened.append(sc)
+            script.append(req)
+        elif r < 0.85:
+            # mostly the matching deactivate, sometimes an enclosing or unrelated one
+            sc = rng.choice(opened) if opened and rng.random() < 0.75 else rand_scope(rng, node, 0.15)
+            req = ['deact', sc]
+            if rng.random() < 0.05:
+                req.append(1)
+            script.append(req)
+        else:
+            script.append(['idn'])
+    if rng.random() < 0.3:
+        script.append(['close'])
+    return script
+
+
+def rand_upds(rng, node, counter):
+    ths = []
+    for _ in range(rng.choice([0, 1, 1, 2, 2])):
+        th = []
+        for _ in range(rng.choice([1, 2, 2, 3])):
+            mi = rng.randrange(len(node))
+            pi = rng.randrange(len(node[mi]['params']))
+            counter[0] += 1
+            th.append([mi, pi, counter[0]])
+        ths.append(th)
+    return ths
+
+
+def rand_sched(rng):
+    r = rng.random()
+    if r < 0.35:
+        return {'kind': 'seed', 'seed': rng.randrange(1 << 30), 'stick': 0.0}
+    if r < 0.75:
+        return {'kind': 'seed', 'seed': rng.randrange(1 << 30), 'stick': rng.choice([0.5, 0.8, 0.9])}
+    k = rng.choice([1, 2, 2, 3])
+    return {'kind': 'preempt', 'points': {str(rng.randrange(1, 50)): rng.randrange(6) for _ in range(k)}}
+
+
+def rand_case(rng):
+    node = rand_node(rng)
+    counter = [0]
+    return {'node': node, 'conns': [rand_script(rng, node) for _ in range(rng.choice([1, 2, 2, 3]))],
+            'upds': rand_upds(rng, node, counter), 'sched': rand_sched(rng)}
+
+
+ONE = [{'export': True, 'params': [['value', True]]}]
+TWO = [{'export': True, 'params': [['value', True], ['a', True]]}, {'export': True, 'params': [['value', True]]}]
+HID = [{'export': True, 'params': [['value', True], ['a', False]]}, {'export': False, 'params': [['value', True]]}]
+
+SCENARIOS = [
+    # activation racing with one update (stale snapshot window)
+    {'node': ONE, 'conns': [[['act', ['g']]]], 'upds': [[[0, 0, 1]]]},
+    {'node': ONE, 'conns': [[['act', ['m', 0]]]], 'upds': [[[0, 0, 1], [0, 0, 2]]]},
+    {'node': ONE, 'conns': [[['act', ['p', 0, 0]]]], 'upds': [[[0, 0, 1]], [[0, 0, 2]]]},
+    # deactivation / identification / disconnect racing with a broadcast (late update window)
+    {'node': ONE, 'conns': [[['act', ['g']], ['deact', ['g']]]], 'upds': [[[0, 0, 1]]]},
+    {'node': ONE, 'conns': [[['act', ['m', 0]], ['idn']]], 'upds': [[[0, 0, 1]]]},
+    {'node': ONE, 'conns': [[['act', ['p', 0, 0]], ['close']]], 'upds': [[[0, 0, 1]]]},
+    {'node': ONE, 'conns': [[['act', ['p', 0, 0]], ['deact', ['p', 0, 0]], ['act', ['g']]]], 'upds': [[[0, 0, 1]]]},
+    # two connections: scopes of the other connection are unaffected
+    {'node': TWO, 'conns': [[['act', ['g']], ['deact', ['g']]], [['act', ['m', 0]]]], 'upds': [[[0, 1, 1], [1, 0, 2]]]},
+    {'node': TWO, 'conns': [[['act', ['m', 0]], ['close']], [['act', ['p', 0, 1]], ['deact', ['m', 0]]]], 'upds': [[[0, 1, 1]]]},
+    {'node': TWO, 'conns': [[['act', ['p', 1, 0]], ['idn']], [['act', ['g']]]], 'upds': [[[1, 0, 1]], [[0, 0, 2]]]},
+    # hidden parameter / hidden module / refused requests
+    {'node': HID, 'conns': [[['act', ['g']], ['act', ['m', 1]], ['act', ['p', 0, 1]]]], 'upds': [[[0, 1, 1], [1, 0, 2], [0, 0, 3]]]},
+    {'node': HID, 'conns': [[['act', ['m', 0]], ['deact', ['g']], ['deact', ['m', 0], 1]], [['act', ['badmod']], ['act', ['g'], 1]]],
+     'upds': [[[0, 0, 1]]]},
+]
+
+
+def _explore_one(args):
+    """systematic depth-first enumeration of the schedules of one scenario with a preemption bound (runs the real
+    code under the scheduler); returns explicit decision lists"""
+    scen, bound, limit = args
+    from types import SimpleNamespace
+    from harness import dsched
+    out = []
+    try:
+        def run_fn(policy):
+            o = run_case(dict(scen, want_steps=True), policy=policy)
+            return SimpleNamespace(status=o['status'], steps=[tuple(x) for x in (o['steps'] or [])], decisions=o['decisions'])
+        seen = set()
+        for _prefix, res in dsched.explore(run_fn, max_preemptions=bound, limit=limit):
+            if res.status == 'ok' and tuple(res.decisions) not in seen:
+                seen.add(tuple(res.decisions))
+                out.append(list(res.decisions))
+    except Exception:    # a changed implementation may not be explorable; the random schedules still run
+        pass
+    return out
+
+
+def systematic_cases(bound, limit, scenarios):
+    import multiprocessing as mp
+    jobs = [(sc, bound, limit) for sc in scenarios]
+    try:
+        with mp.get_context('fork').Pool(min(16, len(jobs))) as pool:
+            res = pool.map(_explore_one, jobs, chunksize=1)
+    except Exception:
+        res = [[] for _ in jobs]
+    cases = []
+    for sc, decs in zip(scenarios, res):
+        for d in decs:
+            cases.append(dict(sc, sched={'kind': 'explicit', 'decisions': d}))
+    return cases
+
+
+def gen_cases(seed, tier):
+    rng = random.Random(seed * 1000003 + 8)
+    n = {'quick': 2200, 'thorough': 30000, 'search': 30000}[tier]
+    cases = [rand_case(rng) for _ in range(n)]
+    # the racing scenarios also under many random schedules
+    for sc in SCENARIOS:
+        for _ in range(40 if tier == 'quick' else 400):
+            cases.append(dict(sc, sched=rand_sched(rng)))
+    if tier == 'quick':
+        cases.extend(systematic_cases(2, 150, SCENARIOS))
+    else:
+        cases.extend(systematic_cases(3, 4000, SCENARIOS))
+    return cases
+
+
+def shrink(case):
+    conns, upds = case['conns'], case['upds']
+    if case['sched']['kind'] == 'explicit':
+        return
+    for i in range(len(conns)):
+        if len(conns) > 1:
+            yield dict(case, conns=conns[:i] + conns[i + 1:])
+        for j in range(len(conns[i]) - 1, -1, -1):
+            yield dict(case, conns=conns[:i] + [conns[i][:j] + conns[i][j + 1:]] + conns[i + 1:])
+    for i in range(len(upds)):
+        yield dict(case, upds=upds[:i] + upds[i + 1:])
+        for j in range(len(upds[i]) - 1, -1, -1):
+            if len(upds[i]) > 1:
+                yield dict(case, upds=upds[:i] + [upds[i][:j] + upds[i][j + 1:]] + upds[i + 1:])
